@@ -135,16 +135,24 @@ def rules(rep, db, inline):
             why = None
             for p in ps:
                 ev = shown(p)
-                if len(ps) != 1 or len(ev) != 5 or ev[2][0] != "std::unique":
+                uq = [i for i, (n_, a_) in enumerate(ev, 1) if n_ == "std::unique"]
+                er = [i for i, (n_, a_) in enumerate(ev, 1) if n_.split("::")[-1] == "erase"]
+                rest = [n_ for i, (n_, a_) in enumerate(ev, 1) if i not in uq + er and not (n_.split("::")[-1] in ("begin", "end", "cbegin", "cend") and a_ == [r])]
+                if len(ps) != 1 or len(uq) != 1 or len(er) != 1 or rest or er[0] < uq[0]:
                     why = "not exactly container.erase(std::unique(begin, end, predicate), end)"
                     break
-                pred = [fn["params"][1]["name"]] if short == "unique_if" else [ev[2][1][2] if len(ev[2][1]) == 3 else "?"]
-                if not over_own_range(ev, r, "std::unique", pred):
+                ua = ev[uq[0] - 1][1]
+                pred = [fn["params"][1]["name"]] if short == "unique_if" else [ua[2] if len(ua) == 3 else "?"]
+
+                def end_of(x):
+                    m_ = re.match(r"^#(\d+):c?(begin|end)$", unwrap_iter(x))
+                    return (m_.group(2), ev[int(m_.group(1)) - 1][1]) if m_ else None
+                if [end_of(x) for x in ua[:2]] != [("begin", [r]), ("end", [r])] or ua[2:] != pred:
                     why = "std::unique is not called over [begin, end) of the container with the caller's predicate"
-                elif not (ev[3][0].split("::")[-1] == "end" and ev[3][1] == [r] and ev[4][0].split("::")[-1] == "erase" and ev[4][1][0] == r
-                          and unwrap_iter(ev[4][1][1]) == "#3:unique"
-                          and unwrap_iter(ev[4][1][2]) == "#4:end"):
-                    why = "the tail [result of std::unique, end) of the same container is not what is erased: %s" % ev[4][1]
+                else:
+                    ea = ev[er[0] - 1][1]
+                    if not (ea[0] == r and unwrap_iter(ea[1]) == "#%d:unique" % uq[0] and end_of(ea[2]) == ("end", [r])):
+                        why = "the tail [result of std::unique, end) of the same container is not what is erased: %s" % ea
                 if short == "unique" and not why and "lambda" not in pred[0]:
                     why = "unique does not compare with =="
             verdict("WRAP2", fn, key, why, ps)
@@ -177,10 +185,17 @@ def rules(rep, db, inline):
             calls = [e for e in shown(p) if e[0] == "call"]
             trues = 0
             for k, (d, v) in enumerate(p.decisions):
-                if sx.show(d).replace(" ", "") != "(%d<%s)" % (k, c):
+                go = None
+                if isinstance(d, tuple) and d and d[0] == "cmp":
+                    a_, b_ = sx.show(d[2]).replace(" ", ""), sx.show(d[3]).replace(" ", "")
+                    if (a_, b_) == (str(k), c):
+                        go = {"<": v, ">=": not v}.get(d[1])
+                    elif (a_, b_) == (c, str(k)):
+                        go = {">": v, "<=": not v}.get(d[1])
+                if go is None:
                     why = "step %d is decided by %s, not by %d < count" % (k, sx.show(d), k)
                     break
-                trues += 1 if v else 0
+                trues += 1 if go else 0
             if why:
                 break
             if any(a != [f] for n, a in calls):
@@ -519,10 +534,18 @@ def rules_assoc(rep, db, inline):
         rows = set()
         for p in ps:
             ev = shown(p)
-            if not ev or ev[0][0].split("::")[-1] != "size" or ev[0][1] != [c] or len(p.decisions) != 1 or norm(sx.show(p.decisions[0][0])) != "(%s<#1:size)" % i:
+            d0 = p.decisions[0][0] if len(p.decisions) == 1 else None
+            inr = None
+            if ev and ev[0][0].split("::")[-1] == "size" and ev[0][1] == [c] and isinstance(d0, tuple) and d0 and d0[0] == "cmp":
+                a_, b_ = norm(sx.show(d0[2])), norm(sx.show(d0[3]))
+                # the test must be index < size(), in any spelling (size() > index, !(index >= size()), ...)
+                if (a_, b_) == (i, "#1:size"):
+                    inr = {"<": p.decisions[0][1], ">=": not p.decisions[0][1]}.get(d0[1])
+                elif (a_, b_) == ("#1:size", i):
+                    inr = {">": p.decisions[0][1], "<=": not p.decisions[0][1]}.get(d0[1])
+            if inr is None:
                 why = "not decided by index < size() of the container: %s" % [sx.show(d) for d, v in p.decisions]
                 break
-            inr = p.decisions[0][1]
             rows.add(inr)
             out = norm(sx.show(p.outcome[1])) if p.outcome[0] == "return" else "?"
             if not inr and not out.endswith(":none"):
